@@ -46,11 +46,7 @@ pub fn check(c: &Case, dynq: &[String]) -> Checked {
     if let Some(prog) = &c.prog
         && let Ok((_, flags)) = refsem::run(prog, c.n, &inp)
     {
-        for (flag, q) in [
-            ("nan_condition", "nan-as-condition"),
-            ("logic_on_negative_or_nan_operand", "logic-on-negative-or-nan"),
-            ("modulo_non_integer_operand", "modulo"),
-        ] {
+        for (flag, q) in [("modulo_non_integer_operand", "modulo")] {
             if flags.contains(flag) && dynq.iter().any(|x| x == q) {
                 res.dyn_quarantine.push(q);
             }
@@ -125,7 +121,9 @@ pub fn check(c: &Case, dynq: &[String]) -> Checked {
         }
         _ => {
             let (ov, ow) = (outcome(&vm), outcome(&wasm));
-            let both_panic_in_dsp = matches!((&vm, &wasm), (Err(RunError::DspPanic(..)), Err(RunError::DspPanic(..))));
+            let sched = |r: &Result<RunOut, RunError>| r.as_ref().err().is_some_and(|e| e.short().contains("must be in the future"));
+            let both_panic_in_dsp = matches!((&vm, &wasm), (Err(RunError::DspPanic(..)), Err(RunError::DspPanic(..))))
+                || (sched(&vm) && sched(&wasm));
             if ov == ow || both_panic_in_dsp {
                 // both fail in the same way (same panic): that is C03's/C04's business, the back ends agree
                 res.both_rejected = true;
